@@ -36,6 +36,9 @@ func difference(a map[string]string, b map[string]bool) []string {
 			new = append(new, key1)
 		}
 	}
+	// Go map iteration order is random; sort so that the import block (and
+	// with it the generated file) is a function of the source.
+	sort.Strings(new)
 	return new
 }
 
